@@ -24,6 +24,8 @@ RULE = ('histories over the alphabet {read_x, read_y, read_r, read_t, crop, pad1
         'NaN/+inf/-inf} x dx in {1, 0.37}; dx = 0 (constructor without lateral calibration) with length-2 histories over the operations '
         'that do not divide by dx; memory layouts: data Fortran-ordered / a transposed view / strided / negatively strided x every invalid '
         'pattern x shapes 9x7, 7x10, every operation (length 1; length 2 on 4 (quick), length 2 on all and 3 on 4 (thorough)), each history '
+        'run likewise; degenerate extents 1x1, 1x2, 2x1, 1x5, 5x1, 2x2, 2x3, 3x2, 3x3, 1x9, 2x8 x {none, dropouts, mixed non-finite} through every operation '
+        '(length 1; length 2 on 6 (quick); length 2 on all, 3 on 6 (thorough)) with value-level model comparison; layout histories are each '
         'run on a C-contiguous copy as well and the two objects compared after every step; seeded random histories up to length 40 (random '
         'layout) with value-level model comparison at every step; crop '
         'additionally on every shape of a list (wide, tall, square, odd/even, 1-wide) x all 16 combinations of touching-the-edge / '
@@ -94,6 +96,19 @@ def make_data(shape, pattern, data_seed):
 
 
 LAYOUTS = ['C', 'F', 'T', 'strided', 'neg']
+# degenerate extents: a single sample, a single row / column, 2-sample axes (centre index 0 or 1, linspace(-1, 1, 1), rank-deficient
+# fits, one-sample bounding boxes) — "all data shapes" of the quantifier
+TINY_SHAPES = [(1, 1), (1, 2), (2, 1), (1, 5), (5, 1), (2, 2), (2, 3), (3, 2), (3, 3), (1, 9), (2, 8)]
+
+
+def tiny_configs():
+    out = []
+    for k, shape in enumerate(TINY_SHAPES):
+        for pat in ('none', 'dropouts', 'infs'):
+            if pat != 'none' and shape[0] * shape[1] < 3:
+                continue
+            out.append({'shape': list(shape), 'pattern': pat, 'dx': DXS[k % 2], 'data_seed': 5000 + k})
+    return out
 
 
 def relayout(z, layout):
@@ -424,6 +439,19 @@ def _tilt_design_ok(i):
     return s[-1] > 1e-3 * s[0] > 0
 
 
+def _tilt_design_exactly_deficient(i):
+    """the tilt design [x, y] on the valid samples has a numerically EXACT rank defect (a zero column on a single row / column, all
+    valid samples on one line through the origin, a single sample): theorem `tilt_removal_idempotent_any_rank` says the minimum-norm
+    re-fit (what lstsq returns) is still exactly 0, because ALL fitted columns are removed"""
+    j = copy.deepcopy(i)
+    fin = np.isfinite(j.data)
+    if fin.sum() < 1:
+        return False
+    A = np.stack([j.x[fin], j.y[fin]]).T
+    s = np.linalg.svd(A, compute_uv=False)
+    return s[0] == 0 or s[-1] <= 1e-13 * s[0] or fin.sum() == 1
+
+
 def op_failures(before, op, i):
     """predicates tied to the operation just executed.  `before` = (data copy, dx) before the operation"""
     ig = _impl()
@@ -433,7 +461,11 @@ def op_failures(before, op, i):
     if op not in CHANGERS:
         if d1.shape != d0.shape:
             out.append(f'{op} changed the data shape {d0.shape} -> {d1.shape}')
-        elif not np.array_equal(np.isnan(d0), np.isnan(d1)) or not np.array_equal(np.isfinite(d0), np.isfinite(d1)):
+        elif not np.array_equal(np.isfinite(d0), np.isfinite(d1)) or \
+                (np.isfinite(d0).any() and not np.array_equal(np.isnan(d0), np.isnan(d1))):
+            # (a map WITHOUT any valid sample has no mean / fit: inf - NaN = NaN turns an invalid +-inf into an invalid NaN; the set of
+            #  invalid samples — the non-finite ones — is what the property speaks about, the NaN / inf distinction is only compared
+            #  when the subtracted term is defined)
             out.append(f'{op} changed the set of invalid samples')
     if op in READ_ONLY:
         if d1.shape != d0.shape or not np.array_equal(d0, d1, equal_nan=True):
@@ -452,6 +484,11 @@ def op_failures(before, op, i):
         ext = float(max(np.abs(j.x).max(), np.abs(j.y).max(), 1e-12))
         if np.abs(c).max() * ext > TOL * scale * 100:
             out.append(f're-fitting tilt after remove_tiptilt finds coefficients {c.tolist()}')
+    if op == 'remove_tiptilt' and nv >= 1 and np.all(np.abs(_valid(d0)) < 1e6) and _tilt_design_exactly_deficient(i):
+        c, j = _tilt_refit(i)
+        ext = float(max(np.abs(j.x).max(), np.abs(j.y).max(), 1e-12))
+        if not np.all(np.isfinite(c)) or np.abs(c).max() * ext > TOL * scale * 100:
+            out.append(f're-fitting tilt after remove_tiptilt on a rank-deficient design (minimum-norm solution) finds coefficients {c.tolist()}')
     if op == 'remove_power' and nv >= 3 and _power_design_ok(d1):
         fin = np.isfinite(d1)
         m, n = d1.shape
@@ -586,7 +623,7 @@ class Runner:
         before = (i.data.copy(), float(i.dx))
         was = real_summary(i)
         trivial = op.startswith('read_') and was[op[-1]] not in (None, False)
-        ctx.case('history', case, nontrivial=not trivial, tag=op)
+        ctx.case('history', case, nontrivial=not trivial, tag=op + ('/tiny' if min(cfg['shape']) <= 3 else ''))
         pre_xy = None
         try:
             with warnings.catch_warnings():
@@ -886,6 +923,13 @@ def correspondence(ctx):
     for k, cfg in enumerate(lcfgs):
         depth = (ctx.scale(2, 3) if k in ldeep else ctx.scale(1, 2))
         _dfs(run, cfg, make_obj(cfg), [], [], ALPHABET if depth < 3 else DFS3_ALPHABET, depth)
+    # degenerate extents (1x1, single row / column, 2-sample axes): every operation, length 1 (quick: length 2 on 6) / 2 (thorough: 3 on 6)
+    tcfgs = tiny_configs()
+    tdeep = set(int(k) for k in ctx.rng.permutation(len(tcfgs))[:6 + 2 * widen])
+    for k, cfg in enumerate(tcfgs):
+        depth = (ctx.scale(2, 3) if k in tdeep else ctx.scale(1, 2))
+        _dfs(run, cfg, make_obj(cfg), [], [], ALPHABET if depth < 3 else DFS3_ALPHABET, depth, values=True)
+    run.flush()
     # exhaustive, prefix-shared
     ndeep = ctx.scale(2 + widen, 1)
     deep = [cfgs[k] for k in order[:ndeep]]
@@ -992,6 +1036,11 @@ def search(ctx, hints):
                 f = run_history(cfg, [op])
                 if f:
                     return {'item': 'history', 'input': dict(cfg, ops=[op]), 'detail': f[0]}
+    for cfg in tiny_configs():
+        for op in ALPHABET:
+            f = run_history(cfg, [op])
+            if f:
+                return {'item': 'history', 'input': dict(cfg, ops=[op]), 'detail': f[0]}
     pick = [c for c in cfgs if c['shape'] in ([8, 8], [9, 7]) and c['dx'] == 0.37]
     for L in (1, 2, 3):
         for cfg in pick:
@@ -1050,11 +1099,20 @@ MANIFEST_ENTRY = {
              'view, out=, in-place methods, helpers that write into their argument). The Lean driver executes the effect lists translated '
              'from the current source (sent over the wire), the hand table only in addition when they differ. Operations exercised on the '
              'real object include exact_xy / exact_x (interpolated value at a grid node = the data there), pvr, slices, copy, psd (read-only: '
-             'data bit-identical), pad(value, shape=) with a block-placement predicate, maps with +-inf, dx = 0.'),
+             'data bit-identical), pad(value, shape=) with a block-placement predicate, maps with +-inf, dx = 0. Session 3: the WHOLE of crop is '
+             'translated (`crop.margins`: which axis `any` reduces, forward / reversed argmax, the early-return test, the validity test; with '
+             '`crop.slices`) and `crop_source_is_cropBox` proves that the translated crop computes the model\'s bounding box for every validity matrix of '
+             'every shape (so keeps-valid / window / idempotent are statements about the source\'s crop); translated and proved: which util '
+             'statistic each reported property hands self.data to (`gen_stats_delegation`), the shape pad() asks pad2d for (`gen_pad_shape`), '
+             'cart_to_polar = (hypot(x, y), arctan2(y, x)) (`gen_polar_transform`). Least squares for ANY number of columns and any removed '
+             'subset: the zeroed coefficient vector solves the normal equations of the re-fit (`ls_removal_residual_solves`, no rank assumption), every '
+             're-fit finds 0 when the columns are independent (`ls_removal_idempotent`), and when ALL columns are removed (tilt) zero is the minimum-norm '
+             'solution for EVERY rank (`tilt_removal_idempotent_any_rank`; checked on the real code on single-row / single-column / one-sample maps). '
+             'Degenerate extents (1x1, 1xN, Nx1, 2-sample axes) run through every operation.'),
     'note': ('partial: the effect lists abstract array contents to affine grids (shape, origin, spacing) — that the NumPy '
              'statements have those effects is translated syntactically and validated by the history correspondence, not proved; '
-             '`filter` values, pvr values and plotting are not modelled; make_xy_grid / cart_to_polar / lstsq bodies are compared, not translated; validity preservation is proved for finite subtracted terms only; np.linalg.lstsq is trusted to return the normal-equation '
-             'solution (idempotence is not claimed for rank-deficient designs such as a single valid sample); NaN propagation '
+             '`filter` values, pvr values and plotting are not modelled; make_xy_grid (translated by C04) / lstsq bodies are compared, not translated here; validity preservation is proved for finite subtracted terms only; np.linalg.lstsq is trusted to return the normal-equation '
+             'solution / the minimum-norm one (power-removal idempotence is not claimed for rank-deficient designs — it is false there, e.g. all valid samples on one circle; tilt is proved for every rank); NaN propagation '
              'through FFT (filter after mask) is observed, not modelled. Trusted: Lean kernel + standard axioms, the ast->effect '
              'translator, NumPy semantics, float tolerances 1e-9.'),
 }
